@@ -89,6 +89,12 @@ pub fn keypaths(v: &RVal, maxlen: usize, with_extremes: bool) -> Vec<Vec<KP>> {
 
 pub fn names_for(v: &RVal) -> Vec<String> {
     let mut names: Vec<String> = vec!["zz".into(), "".into()];
+    // documents of the key-order universe are probed with every key of that universe
+    if let RVal::Obj(o) = v {
+        if !o.is_empty() && o.keys().all(|k| refmodel::gen::ORDER_KEYS.contains(&k.as_str())) {
+            names.extend(refmodel::gen::ORDER_KEYS.iter().map(|s| s.to_string()));
+        }
+    }
     if let RVal::Obj(o) = v {
         for k in o.keys() {
             names.push(k.clone());
@@ -387,6 +393,8 @@ pub fn spaces(tier: Tier) -> Vec<Space<'static>> {
     sp.push(Space::new("d2", d2.len() as u64, move |i, acc| check_doc(&d2[i as usize], acc, true)));
     let d1q = univ::d1q();
     sp.push(Space::new("d1q", d1q.len() as u64, move |i, acc| check_doc(&d1q[i as usize], acc, true)));
+    let ko = refmodel::gen::keyorder_docs();
+    sp.push(Space::new("key-order objects (byte order != length order != case order)", ko.len() as u64, move |i, acc| check_doc(&ko[i as usize], acc, false)));
     let co = case_objects();
     sp.push(Space::new("case-variant-objects", co.len() as u64, move |i, acc| check_doc(&co[i as usize], acc, false)));
     // casts on every scalar of SW + B64 + SSTR
